@@ -185,6 +185,13 @@ def composite_units() -> List[Unit]:
     out.append(Unit("composite:prefixed-imports", L.Schema("t_pfx", [a_level, a_point, use], imports=[(plib, None)],
                                                              options=['c.name_prefix = "app_"']), [a_point, use],
                     tags=("composite", "imports", "traditional")))
+    # --- sizes past one byte: capacity > 255, more than 16 fields, field numbers up to 255, a message longer than 256 bytes
+    wide_fields = [L.Field("big", 1, L.Array(L.Uint(3), 300)), L.Field("raw", 2, L.Array(L.Byte(), 260))]
+    for k in range(18):
+        wide_fields.append(L.Field("f%d" % k, 10 + 13 * k if 10 + 13 * k <= 255 else 255 - k, [L.Uint(5), L.Bool(), L.Uint(12), L.Byte()][k % 4]))
+    wide_fields.append(L.Field("last", 255, L.Uint(7)))
+    wide = L.Message("Wide", wide_fields)
+    out.append(Unit("composite:wide", L.Schema("t_wide", [wide]), [wide], tags=("composite", "traditional")))
     # --- long field names (the C JSON key is written by one formatted call)
     ln = L.Message("LongNames", [L.Field("a_field_name_that_is_forty_characters_xx", 1, L.Uint(9)),
                                  L.Field("b" * 64, 2, L.Int(7)), L.Field("brief", 3, L.Bool())])
